@@ -1,3 +1,4 @@
+import CwMt.Proofs.EngineInv
 import CwMt.Proofs.EngineB
 /-
   C12 — Only the current admin can migrate or re-assign admin; migration keeps state.
@@ -83,5 +84,30 @@ theorem served_by_recorded_code (cfg : Config E) (blk : Block) (ch : Chain E) (c
     ∃ note, (callContract cfg blk ch c en tr).2 = tr ++ [⟨c, en, contractEnv blk c, note⟩] ∧
       note = (code.run en (contractEnv blk c) ch ((ch.cstore.get? c).getD [])).2 :=
   EngineB.served_by_recorded_code cfg blk ch c en tr cd code hc hcode
+
+end CwMt.C12
+
+/-! ### the history form: a contract without admin stays as it is, forever -/
+namespace CwMt.C12
+open CwMt
+
+/-- For every message tree (any senders, any contracts acting through sub-messages): a contract that
+has no admin keeps having no admin and keeps its code id. -/
+theorem no_admin_is_forever {E : Type} (cfg : Config E) (hf : ExtFrame cfg) (blk : Block) (fuel : Nat)
+    (ch ch' : Chain E) (sender : Addr) (m : Msg) (tr tr' : Trace) (r : AppResponse)
+    (h : execute cfg blk fuel ch sender m tr = (.ok (r, ch'), tr'))
+    (c : Addr) (cd : ContractData) (hc : ch.contracts.get? c = some cd) (hna : cd.admin = none) :
+    ∃ cd', ch'.contracts.get? c = some cd' ∧ cd'.admin = none ∧ cd'.codeId = cd.codeId :=
+  EngineInv.no_admin_is_forever cfg hf blk fuel ch ch' sender m tr tr' r h c cd hc hna
+
+/-- A contract's admin or code id can change during the execution of a message only if its admin at
+the start was the sender of that message or a contract invoked during the execution. -/
+theorem change_needs_admin_involved {E : Type} (cfg : Config E) (hf : ExtFrame cfg) (blk : Block) (fuel : Nat)
+    (ch ch' : Chain E) (sender : Addr) (m : Msg) (tr new : Trace) (r : AppResponse)
+    (h : execute cfg blk fuel ch sender m tr = (.ok (r, ch'), tr ++ new))
+    (c : Addr) (cd cd' : ContractData) (hc : ch.contracts.get? c = some cd) (hc' : ch'.contracts.get? c = some cd')
+    (hchg : cd'.admin ≠ cd.admin ∨ cd'.codeId ≠ cd.codeId) :
+    ∃ a, cd.admin = some a ∧ (a = sender ∨ ∃ e ∈ new, e.callee = a) :=
+  EngineInv.change_needs_admin_involved cfg hf blk fuel ch ch' sender m tr new r h c cd cd' hc hc' hchg
 
 end CwMt.C12
